@@ -73,6 +73,7 @@ func watchdog(limit time.Duration) {
 	same := 0
 	lastProg, sameProg := uint64(0), 0
 	livelock := int(envInt("VSIM_LIVELOCK_S", 45))
+	memTick := 0
 	for {
 		time.Sleep(time.Second)
 		if !vsimRunning.Load() {
@@ -92,6 +93,16 @@ func watchdog(limit time.Duration) {
 			emit(&outLine{Index: int(vsimCurIdx.Load()), Hang: "LIVELOCK: no harness progress for " + fmt.Sprint(livelock) + " s of real time although goroutines keep running (quiescence is never reached)\n" + string(buf[:n])})
 			os.Stderr.Write(buf[:n])
 			os.Exit(3)
+		}
+		if memTick++; memTick%5 == 0 {
+			// GC is off during a run: a run that allocates without bound (a script whose own
+			// loop never lets virtual time pass, say) must not take the machine down
+			var ms runtime.MemStats
+			runtime.ReadMemStats(&ms)
+			if ms.HeapAlloc > uint64(envInt("VSIM_MEM_MB", 6144))<<20 {
+				fmt.Fprintf(os.Stderr, "VSIM-RESOURCE: heap %d MiB in run index %d: aborting the worker\n", ms.HeapAlloc>>20, vsimCurIdx.Load())
+				os.Exit(5)
+			}
 		}
 		p := runtime.SimBubblePicks()
 		if p == last {
